@@ -2,6 +2,7 @@
 
 Every case runs a *base* instance (classes 0..k-1 in order — the only situation the repository's tests sample) and a *variant*
 obtained by a transformation under which the property says nothing observable may change:
+  permute   the same class values listed in another order (transposition, reversed, random)
   rename    classes renamed by an injective map to arbitrary values (gaps, values up to 2**17-1) and listed in another order;
             the labels (and undeclared labels, and template hypothesis values) are renamed consistently
   superset  unused values added to the class list (ANOVA/NICV/SNR/MIA)
@@ -24,7 +25,7 @@ from checks.c04 import auto_classes
 
 PROP = 'C12'
 LEVEL = 'exploration'
-TECHNIQUE = ('metamorphic testing over Hypothesis-generated class lists and data: rename+permute / superset / drop-undeclared / replace-undeclared transformations of a contiguous-class base '
+TECHNIQUE = ('metamorphic testing over Hypothesis-generated class lists and data: permute / rename+permute / superset / drop-undeclared / replace-undeclared transformations of a contiguous-class base '
              'instance must leave results unchanged (per-class outputs permuted); variant also compared with the by-value definition; automatic class sets checked against the first batch')
 RULE = ('case = (kind in anova|nicv|snr|mia|template build|TemplateDPAAttack|TemplateAttack, k in 1..20 classes, renaming to distinct values of [0,600) + {255,256,65535,65536,70000,131070,131071} in arbitrary order, '
         'labels with undeclared values and empty classes, traces, batches, relation). Non-trivial = the variant class list is not sorted-contiguous-from-0 or undeclared values are present; '
@@ -167,7 +168,7 @@ def check_case(ctx, case):
         labels_.append('unsorted_list')
     # position in the variant list of the class that is base class i
     pos = None
-    if rel == 'rename':
+    if rel in ('rename', 'permute'):
         ren = [int(v) for v in case['rename']]
         pos = [var_parts.index(ren[i]) for i in range(k)]
     if True:
@@ -191,10 +192,10 @@ def check_case(ctx, case):
             ob, rb = _run_mia(case, base_parts, traces, base_lab)
             ov, rv = _run_mia(case, var_parts, vtraces, var_lab)
             _close(case, 'mia under %s' % rel, rb, rv, 1e-9)
-            if rel in ('drop', 'replace') or rel == 'rename':
+            if rel in ('drop', 'replace', 'rename', 'permute'):
                 hb = np.asarray(ob.accumulators)
                 hv = np.asarray(ov.accumulators)
-                if rel == 'rename':
+                if pos is not None:
                     hv = hv[:, :, pos, :]
                 if not np.array_equal(hb, hv):
                     raise Violation('mia under %s: the (sample, bin, class, word) histograms differ' % rel, case)
@@ -212,10 +213,10 @@ def check_case(ctx, case):
         elif kind == 'tbuild':
             ob, tb = _run_tbuild(case, base_parts, traces, base_lab, case['kernels'])
             ov, tv = _run_tbuild(case, var_parts, vtraces, var_lab, case['kernels2'])
-            tvp = tv[pos] if rel == 'rename' else tv
+            tvp = tv[pos] if pos is not None else tv
             _same_templates(case, 'template build under %s' % rel, tb, tvp, traces, eps)
             cb, cv = np.asarray(ob._counters), np.asarray(ov._counters)
-            if not np.array_equal(cb, cv[pos] if rel == 'rename' else cv):
+            if not np.array_equal(cb, cv[pos] if pos is not None else cv):
                 raise Violation('template build under %s: per-class trace counts differ' % rel, case)
             scale = float(np.max(np.abs(ob.pooled_covariance))) + 1.0
             ctol = 1e-10 * scale if stats.is_integral(traces) else 64 * eps * traces.shape[0] * (float(np.max(np.abs(traces))) ** 2 + 1.0)
@@ -235,11 +236,11 @@ def check_case(ctx, case):
             av, sv = _run_attack(case, kind, var_parts, vtraces, var_lab, case['mtraces'], case['var_mdata'])
             cond = float(np.linalg.cond(ab.pooled_covariance)) if np.all(np.isfinite(ab.pooled_covariance)) else float('inf')
             tb_, tv_ = np.asarray(ab.templates), np.asarray(av.templates)
-            _same_templates(case, '%s under %s' % (kind, rel), tb_, tv_[pos] if rel == 'rename' else tv_, traces, eps)
+            _same_templates(case, '%s under %s' % (kind, rel), tb_, tv_[pos] if pos is not None else tv_, traces, eps)
             if not (cond < 1e6):
                 ctx.count('skipped_scores_ill_conditioned_covariance')
             else:
-                svp = sv[pos] if (rel == 'rename' and kind == 'tstatic') else sv
+                svp = sv[pos] if (pos is not None and kind == 'tstatic') else sv
                 tolS = (1e-9 if stats.is_integral(traces) else max(1e-9, 64 * eps * traces.shape[0])) * cond * (np.abs(sb) + 10.0)
                 _close(case, '%s scores under %s' % (kind, rel), sb, svp, tolS)
                 if int(np.nanargmax(sb)) != int(np.nanargmax(svp)) and np.sort(sb)[-1] - np.sort(sb)[-2] > 4 * float(np.max(tolS)):
@@ -315,7 +316,7 @@ def cases(draw, kind, precision, tdtypes, pool_seed=0):
     k = draw(st.sampled_from([1, 2, 2, 3, 3, 4, 5, 8, 9, 10, 20] if not single_word else [2, 2, 3, 3, 4, 5, 9, 10]))
     # class lists come from a small per-unit pool (3 per k): the lookup function of a list is compiled once per process
     gp = gen.rng(pool_seed, 'class-list-pool', k, draw(st.integers(0, 2)))
-    rels = ['rename', 'rename', 'rename', 'drop', 'replace'] + (['superset', 'superset'] if kind in PART_KINDS + ('mia',) else [])
+    rels = ['rename', 'rename', 'permute', 'permute', 'drop', 'replace'] + (['superset', 'superset'] if kind in PART_KINDS + ('mia',) else [])
     rel = draw(st.sampled_from(rels))
     W = 1 if single_word else draw(st.integers(1, 3))
     if rel == 'drop':
@@ -379,6 +380,24 @@ def cases(draw, kind, precision, tdtypes, pool_seed=0):
         table.update({u: und_ren[j] for j, u in enumerate(und_vals)})
         var_lab = np.vectorize(lambda v: table[int(v)], otypes=['int64'])(lab)
         case['rename'] = ren
+    elif rel == 'permute':
+        # the same classes listed in another order: a transposition, an interior transposition, the reversed or a random order
+        style = int(gp.integers(4))
+        perm = list(range(k))
+        if k >= 2 and style == 0:
+            a_, b_ = sorted(gp.choice(k, size=2, replace=False).tolist())
+            perm[a_], perm[b_] = perm[b_], perm[a_]
+        elif k >= 4 and style == 1:
+            a_ = int(gp.integers(1, k - 2))
+            perm[a_], perm[a_ + 1] = perm[a_ + 1], perm[a_]
+        elif style == 2:
+            perm = perm[::-1]
+        else:
+            perm = [int(v) for v in gp.permutation(k)]
+        var_parts = perm
+        var_lab = lab.copy()
+        table = {i: i for i in range(k + 3)}
+        case['rename'] = list(range(k))
     elif rel == 'superset':
         extra = [v for v in _pick_values(gp, 6, 0) if v >= k + 2][:int(gp.integers(1, 6))] or [k + 5]
         var_parts = list(range(k)) + extra
@@ -413,7 +432,7 @@ def cases(draw, kind, precision, tdtypes, pool_seed=0):
         if kind == 'tstatic':
             hyp_ = hyp_[:, :1]
         case['mdata'] = hyp_.astype(ddt)
-        if rel == 'rename':
+        if rel in ('rename', 'permute'):
             case['var_mdata'] = np.vectorize(lambda v: table[int(v)], otypes=['int64'])(hyp_).astype(ddt)
         else:
             case['var_mdata'] = hyp_.astype(ddt)
